@@ -103,6 +103,16 @@ func genC05Operand(rt *rapid.T, cl c05Class, vc *valConfig, reg map[string]bool,
 		v.I = 12
 		return v
 	}
+	if depth == 0 && rapid.IntRange(0, 7).Draw(rt, "rvslot") == 3 {
+		// the leaf inside a reflect.Value operand (made from it, or designating an interface-typed slot)
+		l := leaf()
+		for i := 0; i < 20 && (l.K == "nil" || l.K == "svmap" || l.K == "svslice" || l.K == "SafeBytes"); i++ {
+			l = leaf() // (renderings that depend on the nesting depth)
+		}
+		if l.K != "nil" && l.K != "svmap" && l.K != "svslice" && l.K != "SafeBytes" {
+			return &Val{K: "rvslot", I: int64(rapid.IntRange(0, 3).Draw(rt, "rvk")), Sub: []*Val{l}}
+		}
+	}
 	if depth >= 2 && k >= 5 {
 		k = 0
 	}
